@@ -6,8 +6,8 @@ From Verif Require Import Json Outcome Match PatIndex State StateSpec MatchLemma
   CascadeSpec CascadeLemmas1 CascadeTerm CascadeExact AssocLemmas StateProofs
   DurableFrame DurableInv DurableSpec.
 
-Lemma expire_false rr s id fact now s1 :
-  expire rr s id fact now = (s1, false) -> fact_expired fact now = false /\ s1 = s.
+Lemma expire_false rr s id fact now s1 err :
+  expire rr s id fact now = (s1, false, err) -> fact_expired fact now = false /\ s1 = s.
 Proof.
   unfold expire. destruct (fact_expired fact now).
   - destruct (rr s id now) as [s' o]. intros H. inversion H.
@@ -15,7 +15,7 @@ Proof.
 Qed.
 
 Lemma expire_noexp rr s id fact now :
-  fact_expired fact now = false -> expire rr s id fact now = (s, false).
+  fact_expired fact now = false -> expire rr s id fact now = (s, false, None).
 Proof. unfold expire. intros ->. reflexivity. Qed.
 
 (** * B5: what the iterations return is live in the initial state *)
@@ -30,7 +30,7 @@ Section Live.
   Variable rr : state -> string -> Z -> state * outcome bool.
   Hypothesis rr_Sub : forall s id now, Sub s (fst (rr s id now)).
 
-  Lemma expire_Sub_gen s id fact now : Sub s (fst (expire rr s id fact now)).
+  Lemma expire_Sub_gen s id fact now : Sub s (fst (fst (expire rr s id fact now))).
   Proof. apply (expire_R Sub Sub_refl Sub_trans Sub_amb rr rr_Sub). Qed.
 
   Lemma search_ids_live s0 pattern now ids : forall s acc s' res,
@@ -42,8 +42,9 @@ Section Live.
     - injection H as _ <-. intros id bss Hin. apply in_rev in Hin. eapply Hacc; exact Hin.
     - destruct (alookup i (st_facts s)) as [fact|] eqn:El; [|eapply IH; eassumption].
       pose proof (expire_Sub_gen s i fact now) as HS1.
-      destruct (expire rr s i fact now) as [s1 expired] eqn:Ex. cbn [fst] in HS1.
+      destruct (expire rr s i fact now) as [[s1 expired] err] eqn:Ex. cbn [fst] in HS1.
       assert (HS01 : Sub s0 s1) by (eapply Sub_trans; eassumption).
+      destruct (expire_stops (st_kind s) err); [discriminate|].
       destruct expired; [eapply IH; eassumption|].
       apply expire_false in Ex. destruct Ex as [Hne ->].
       destruct (core_match pattern fact []) as [[|b bss0]|e|w|]; try discriminate.
@@ -82,7 +83,7 @@ Proof.
   - injection H as _ <-. intros id body Hin. apply in_rev in Hin. apply Hacc; exact Hin.
   - destruct (alookup i (st_facts s)) as [fact|] eqn:El; [|discriminate].
     pose proof (expire_Sub s i fact now) as HS1.
-    destruct (expire st_rem_rec s i fact now) as [s1 expired] eqn:Ex. cbn [fst] in HS1.
+    destruct (expire st_rem_rec s i fact now) as [[s1 expired] err] eqn:Ex. cbn [fst] in HS1.
     assert (HS01 : Sub s0 s1) by (eapply Sub_trans; eassumption).
     destruct expired; [eapply IH; eassumption|].
     apply expire_false in Ex. destruct Ex as [Hne ->].
@@ -103,8 +104,9 @@ Proof.
   - destruct (alookup i (st_facts s)) as [fact|] eqn:El; [|eapply IH; eassumption].
     destruct (jget "rule" fact) as [rule|] eqn:Er; [|eapply IH; eassumption].
     pose proof (expire_Sub s i fact now) as HS1.
-    destruct (expire st_rem_rec s i fact now) as [s1 expired] eqn:Ex. cbn [fst] in HS1.
+    destruct (expire st_rem_rec s i fact now) as [[s1 expired] err] eqn:Ex. cbn [fst] in HS1.
     assert (HS01 : Sub s0 s1) by (eapply Sub_trans; eassumption).
+    destruct err; [discriminate|].
     destruct expired; [eapply IH; eassumption|].
     apply expire_false in Ex. destruct Ex as [Hne ->].
     destruct rule as [| | | | |rm]; try (eapply IH; eassumption).
@@ -229,23 +231,37 @@ Section NoFail.
   Hypothesis rr_Sub : forall s id now, Sub s (fst (rr s id now)).
   Hypothesis rr_ok : forall s j, st_fail s = None -> ok_or_oof (snd (rr s j now)).
 
-  Lemma search_ids_dw_ok x : forall ids s acc,
-    exists res, snd (search_ids rr s ids (dw_pattern x) now acc) = Ok res.
+  Lemma expire_nofail_err s i fact : st_fail s = None -> snd (expire rr s i fact now) = None.
   Proof.
-    induction ids as [|i r IH]; intros s acc; cbn [search_ids].
-    - eexists; reflexivity.
-    - destruct (alookup i (st_facts s)) as [fact|]; [|apply IH].
-      destruct (expire rr s i fact now) as [s1 expired].
-      destruct expired; [apply IH|].
-      destruct (core_match_dw_ok x fact) as [res ->]. destruct res; apply IH.
+    intros Hf. unfold expire. destruct (fact_expired fact now); [|reflexivity].
+    pose proof (rr_ok s i Hf) as Ho. destruct (rr s i now) as [s' o]. cbn [snd] in *.
+    destruct o; try contradiction; reflexivity.
   Qed.
 
-  Lemma search_state_dw_ok x s : exists res, snd (search_state rr s (dw_pattern x) now) = Ok res.
+  (** (without a storage failure: under one, the linear state's search
+      returns the error of the purge of an expired item) *)
+  Lemma search_ids_dw_ok x : forall ids s acc, st_fail s = None ->
+    exists res, snd (search_ids rr s ids (dw_pattern x) now acc) = Ok res.
   Proof.
-    unfold search_state. destruct (st_kind s).
+    induction ids as [|i r IH]; intros s acc Hf; cbn [search_ids].
+    - eexists; reflexivity.
+    - destruct (alookup i (st_facts s)) as [fact|]; [|apply IH; exact Hf].
+      pose proof (expire_nofail_err s i fact Hf) as He.
+      pose proof (expire_R Sub Sub_refl Sub_trans Sub_amb rr rr_Sub s i fact now) as HS.
+      destruct (expire rr s i fact now) as [[s1 expired] err]. cbn [fst snd] in *. subst err.
+      cbv beta iota delta [expire_stops].
+      assert (Hf1 : st_fail s1 = None) by (destruct HS as (_ & _ & HS & _); congruence).
+      destruct expired; [apply IH; exact Hf1|].
+      destruct (core_match_dw_ok x fact) as [res ->]. destruct res; apply IH; exact Hf1.
+  Qed.
+
+  Lemma search_state_dw_ok x s : st_fail s = None ->
+    exists res, snd (search_state rr s (dw_pattern x) now) = Ok res.
+  Proof.
+    intros Hf. unfold search_state. destruct (st_kind s).
     - destruct (ti_search_spec (st_tindex s) _ (dw_terms_nonempty x)) as (ids & -> & _).
-      apply search_ids_dw_ok.
-    - apply search_ids_dw_ok.
+      apply search_ids_dw_ok; exact Hf.
+    - apply search_ids_dw_ok; exact Hf.
   Qed.
 
   Lemma rem_list_nofail skip : forall ids s, st_fail s = None ->
@@ -263,7 +279,7 @@ Section NoFail.
     ok_or_oof (snd (delete_dependencies rr s id now)).
   Proof.
     intros Hf. unfold delete_dependencies.
-    destruct (search_state_dw_ok id s) as [res Hres].
+    destruct (search_state_dw_ok id s Hf) as [res Hres].
     pose proof (search_state_R Sub Sub_refl Sub_trans Sub_amb rr rr_Sub s (dw_pattern id) now) as HS.
     destruct (search_state rr s (dw_pattern id) now) as [s1 o]. cbn [fst snd] in *. subst o.
     apply rem_list_nofail. destruct HS as (_ & _ & HS & _). congruence.
